@@ -48,7 +48,7 @@ def run(chk):
             what = {-4: "panic", -5: "remainder is not the tail of the input"}.get(outcome, "wrong parse result")
             key = "%s:de:%s" % (row[0], what)
         else:
-            what = "panic" if outcome == "panic" else "wrong prefix"
+            what = "panic" if outcome == [-4] else "wrong prefix"
             key = "%s:ser:%s" % (row[0], what)
         chk.violation(key, "%s %s on %s: real code gave %s" % (row[0], kind, row[1], outcome),
                       {"style": row[0], "op": kind, "input": row[1], "observed": outcome})
